@@ -8,7 +8,7 @@
    interpreted on an EndianSlice (`run_plain_rd`) and on RelocateReader<EndianSlice, _> (`run_reloc_rd`,
    which also returns the ghost trace of what was read how); `map_relocator R` is
    object::read::RelocationMap::relocate; `apply_rrels R` is the section with R already applied. *)
-From Coq Require Import List NArith ZArith Bool.
+From Coq Require Import List NArith ZArith Bool Lia.
 From Coq.Strings Require Import Byte.
 Require Import GV.Base.Res GV.Base.Byt GV.Base.Ints GV.Model.Prim.
 Require Import GV.Model.Reloc GV.Proofs.RelocProofs.
@@ -54,6 +54,9 @@ Example ex_script_hyps :
   is_ok (run_plain false (map (resolve ex_env) ex_script) []) = true /\
   (match run_reloc false ex_script ([], []) with Ok (_, rs) => length rs | _ => O end) = 4%nat.
 Proof. vm_compute. repeat split; reflexivity. Qed.
+
+Example ex_script_u64 : Forall wop_u64 ex_script.
+Proof. repeat constructor. Qed.
 
 (* the side condition is needed: a write_at over a recorded site makes direct and relocated output differ *)
 Example clobber_breaks_transparency :
@@ -168,6 +171,25 @@ Example ex_hdr_hyps :
     Ok ([4; 4; 8; 1; 4148; 0; 0; 11; 4], 15, 0).
 Proof. vm_compute. repeat split; reflexivity. Qed.
 
+(* the same header and relocation as an instance of prim_reloc / prim_reloc_value: read_offset(Dwarf32) at
+   offset 6 with 9 bytes left returns 0x34 + 0x1000 on both sides *)
+Example ex_prim_hyps :
+  let r := mkRrel 6 4 true 4096 in
+  sites_disjointb ex_R = true /\ (forall r', In r' ex_R -> 1 <= rr_w r') /\ In r ex_R /\
+  reloc_method false (rr_w r) (read_word false false) /\
+  (N.to_nat (rr_w r) <= 9)%nat /\ (N.to_nat (rr_pos r) + 9 <= length ex_hdr)%nat /\
+  rrel_value r (dec_un false (slice ex_hdr 6 4)) = 4148 /\
+  trace_okb ex_R (fst (rr_rel true 4 (read_word false false) (fun pos v => Ok (relocate ex_R pos v))
+                         (mkRrd (mkRd 0 ex_hdr) (mkRd 6 (slice ex_hdr 6 9))))) = true.
+Proof.
+  cbv zeta. split; [reflexivity|]. split.
+  { intros r' [<-|[]]. vm_compute. discriminate. }
+  split; [now left|]. split.
+  { right. right. exists false. split; reflexivity. }
+  split; [vm_compute; lia|]. split; [vm_compute; lia|].
+  split; reflexivity.
+Qed.
+
 (* two address pairs, a base-address selector and the terminator, every address relocated *)
 Definition ex_ranges : list byte :=
   [x10; x00; x00; x00; x20; x00; x00; x00;  xff; xff; xff; xff; x00; x00; x00; x00;
@@ -203,6 +225,10 @@ Theorem reader_no_panic : forall (A : Type) (be dbg : bool) (rl : relocator) (p 
   (forall pos v, rl_addr rl pos v <> Panic) -> (forall pos v, rl_off rl pos v <> Panic) ->
   snd (run_reloc_rd be dbg rl p (rrd_new (mkRd base bs))) <> Panic.
 Proof. exact reloc_rd_no_panic_lemma. Qed.
+
+Example ex_map_relocator_total : forall R pos v,
+  rl_addr (map_relocator R) pos v <> Panic /\ rl_off (map_relocator R) pos v <> Panic.
+Proof. intros. split; discriminate. Qed.
 
 (* ---------------------------------------------------------------- both sides composed *)
 
